@@ -108,6 +108,8 @@ type c17Res struct {
 	errMsg     string
 	plan       *c17Plan
 	malformed  string
+	abandoned  bool // cancelled, and the handler had not returned 3 simulated seconds later
+	cancelled  bool // the client cancelled before the answer was complete: nothing is stated but "what arrived is a prefix"
 }
 
 type c17Case struct {
@@ -230,7 +232,7 @@ func c17Call(f *apiFamily) string {
 }
 
 func (cw *c17World) drawOutput(c *c17Case) {
-	kinds := []string{"text", "multibyte", "empty", "json-not-a-call"}
+	kinds := []string{"text", "text", "multibyte", "multibyte", "json-not-a-call", "json-not-a-call", "empty"}
 	if c.tools {
 		kinds = []string{"text", "multibyte", "one-call", "two-calls", "call-array", "text+call", "call+text", "wrapped-calls", "json-not-a-call", "unterminated-call", "three-calls", "empty", "one-call", "two-calls"}
 	}
@@ -429,6 +431,23 @@ func (cw *c17World) issue(c *c17Case, way int) *c17Res {
 	c.cur = p
 	r := &c17Res{way: way, plan: p}
 	ctx := context.Background()
+	cancelArm := false
+	if c.fail == failNone && verifsim.Draw("client-cancel", 12) == 0 {
+		cancelArm = true
+		// the client goes away at a tape-chosen moment
+		cctx, cancel := context.WithCancel(ctx)
+		ctx = cctx
+		defer cancel()
+		delay := time.Duration(verifsim.Draw("cancel-after", 40*(len(frags)+2))) * time.Millisecond
+		verifsim.Go("cancel", func() {
+			verifsim.Sleep(delay)
+			if c.cur == p {
+				verifsim.Fault("client_cancel")
+				r.cancelled = true
+			}
+			cancel()
+		})
+	}
 	stream := wayStream(way)
 	opts := map[string]any{}
 	if len(c.stops) > 0 {
@@ -445,6 +464,40 @@ func (cw *c17World) issue(c *c17Case, way int) *c17Res {
 	if c.tools {
 		tools = c17Tools()
 	}
+	if cancelArm {
+		// A request cancelled while it waits in the scheduler's queue is dropped without
+		// a reply and its handler never returns (the C02 carve-out "a cancelled request
+		// receives at most one reply"); a client that went away does not wait for it.
+		finished := false
+		verifsim.Go("call", func() {
+			cw.perform(c, way, r, ctx, stream, opts, msgs, tools)
+			finished = true
+		})
+		for waited := 0; !finished; {
+			verifsim.Sleep(20 * time.Millisecond)
+			if r.cancelled {
+				if waited++; waited > 150 {
+					r.abandoned = true
+					verifsim.Probe("c17_cancelled_call_never_returned")
+					break
+				}
+			}
+		}
+	} else {
+		cw.perform(c, way, r, ctx, stream, opts, msgs, tools)
+	}
+	r.ok = r.finals >= 1 && r.errs == 0 && !r.abandoned
+	if c.cur == p {
+		c.cur = nil
+	}
+	if r.cancelled && r.ok {
+		r.cancelled = false // the answer was complete before the cancellation took effect
+	}
+	return r
+}
+
+// perform sends the request of case c one way and parses the answer into r.
+func (cw *c17World) perform(c *c17Case, way int, r *c17Res, ctx context.Context, stream bool, opts map[string]any, msgs []api.Message, tools api.Tools) {
 	switch {
 	case !wayOpenAI(way) && c.chat:
 		req := api.ChatRequest{Model: c.model, Messages: msgs, Options: opts, Tools: tools}
@@ -517,9 +570,6 @@ func (cw *c17World) issue(c *c17Case, way int) *c17Res {
 		mw := cw.apiJSON(ctx, "POST", "/v1/completions", req)
 		r.parseOpenAI(mw, false, stream)
 	}
-	r.ok = r.finals >= 1 && r.errs == 0
-	c.cur = nil
-	return r
 }
 
 func toolString(name string, args any) string {
@@ -679,8 +729,8 @@ func (r *c17Res) addOpenAI(data []byte, stream bool) {
 	if m.Usage != nil && (m.Usage.TotalTokens != 0 || !stream) {
 		r.promptEval, r.evalCount, r.haveCounts = m.Usage.PromptTokens, m.Usage.CompletionTokens, true
 	}
-	if !stream {
-		r.finals++
+	if !stream && r.doneReason != "" {
+		r.finals++ // a non-streamed completion is final when it says why it finished
 	}
 }
 
@@ -785,6 +835,12 @@ func (cw *c17World) drawCase(id int) *c17Case {
 		}
 	case 2:
 		c.fail = failAfterLast
+	case 3:
+		// llm/server.go: when the model repeats one token more than 30 times the real
+		// Completion returns ctx.Err(), i.e. nil, without a done message
+		if d("silent", 2) == 0 {
+			c.fail = failSilentEnd
+		}
 	}
 	// ways: one of each base kind where the endpoint can express the request, then extras
 	pick := func(a, b int) int {
@@ -859,6 +915,21 @@ func mappedReason(native string, tools int) string {
 
 func (cw *c17World) check(c *c17Case) {
 	shape := c.shape()
+	// calls the client abandoned take no part in the equalities; what they received
+	// before must still be a prefix of the model output (no tools: the text is O)
+	all := c.results
+	c.results = nil
+	for _, r := range all {
+		if !r.cancelled {
+			c.results = append(c.results, r)
+			continue
+		}
+		verifsim.Probe("c17_client_cancel_midstream")
+		if !c.tools && !strings.HasPrefix(c.out, r.content) {
+			cw.violate(c, "stream", "cancelled-prefix:"+shape+":"+wayClass(r.way), "%s: the client cancelled mid-answer; what it had received, %q, is not a prefix of the model output %q", wayNames[r.way], r.content, c.out)
+		}
+	}
+	defer func() { c.results = all }()
 	// the premise: every way presented the same prompt/format/stop to the runner
 	var ref *c17Plan
 	for _, r := range c.results {
@@ -895,7 +966,11 @@ func (cw *c17World) check(c *c17Case) {
 			kind = "messages-after-terminator"
 		}
 		if kind != "" {
-			cw.violate(c, "stream", "terminator:"+wayClass(r.way)+":"+kind+":"+failClass(c.fail), "%s (fragmentation %s) ended with %d final message(s) and %d error(s), %d message(s) after the first of them; want exactly one final or exactly one error (status %d, error %q)",
+			where := wayClass(r.way)
+			if c.fail == failSilentEnd && kind == "neither-final-nor-error" {
+				where = "any" // one root cause (the handlers trust a nil return of Completion), whatever the way
+			}
+			cw.violate(c, "stream", "terminator:"+where+":"+kind+":"+failClass(c.fail), "%s (fragmentation %s) ended with %d final message(s) and %d error(s), %d message(s) after the first of them; want exactly one final or exactly one error (status %d, error %q)",
 				wayNames[r.way], r.plan.fragDsc, r.finals, r.errs, r.after, r.status, r.errMsg)
 		}
 	}
@@ -905,6 +980,9 @@ func (cw *c17World) check(c *c17Case) {
 	// relation. Across APIs only results obtained with the same fragmentation are compared.
 	// The OpenAI layer sits on the native handlers, so its internal relations are checked
 	// only when the native ones hold (otherwise they are consequences).
+	if c.fail == failSilentEnd {
+		return // nothing ended properly: every further difference is a consequence
+	}
 	before := len(cw.sim.Violations())
 	cw.compareWithin(c, false)
 	nativeHeld := len(cw.sim.Violations()) == before
@@ -929,6 +1007,32 @@ func (cw *c17World) check(c *c17Case) {
 			cw.violate(c, "stream", "counts-vs-output:"+shape+":"+wayClass(r.way), "%s: token counts %d/%d are not the runner's %d/%d", wayNames[r.way], r.promptEval, r.evalCount, c.pe, c.ec)
 		}
 	}
+}
+
+// fragList prints runner chunks for messages, joining runs of one-character chunks.
+func fragList(fr []string) string {
+	var out []string
+	for i := 0; i < len(fr); i++ {
+		if len([]rune(fr[i])) == 1 {
+			j := i
+			var sb strings.Builder
+			for j < len(fr) && len([]rune(fr[j])) == 1 {
+				sb.WriteString(fr[j])
+				j++
+			}
+			if j-i > 3 {
+				out = append(out, fmt.Sprintf("%q(one character per chunk)", sb.String()))
+				i = j - 1
+				continue
+			}
+		}
+		out = append(out, fmt.Sprintf("%q", fr[i]))
+	}
+	s := "[" + strings.Join(out, " | ") + "]"
+	if len(s) > 700 {
+		s = s[:700] + "...]"
+	}
+	return s
 }
 
 func sameFrags(a, b *c17Plan) bool {
@@ -974,7 +1078,7 @@ func (cw *c17World) compareWithin(c *c17Case, oa bool) {
 func (cw *c17World) comparePair(c *c17Case, a, b *c17Res, rel, where string) {
 	shape := c.shape()
 	sig := func(field string) string { return rel + ":" + field + ":" + shape + ":" + where }
-	what := fmt.Sprintf("%s (fragmentation %s) vs %s (fragmentation %s)", wayNames[a.way], a.plan.fragDsc, wayNames[b.way], b.plan.fragDsc)
+	what := fmt.Sprintf("%s (fragmentation %s) vs %s (fragmentation %s, runner chunks %s)", wayNames[a.way], a.plan.fragDsc, wayNames[b.way], b.plan.fragDsc, fragList(b.plan.frags))
 	cw.compared(rel)
 	if a.ok != b.ok {
 		cw.violate(c, "stream", sig("outcome"), "%s: one ended with a final message, the other with an error (%d finals/%d errors %q vs %d finals/%d errors %q)", what, a.finals, a.errs, a.errMsg, b.finals, b.errs, b.errMsg)
@@ -1135,7 +1239,7 @@ func TestVerifAPI(t *testing.T) {
 			"api/client.go (Client.Chat / Client.Generate stream decoding over an in-process RoundTripper)", "template, gin router and middlewares, real model store on tmpfs populated through POST /api/blobs + /api/create"},
 		Stub: []string{"llm.LlamaServer (simLlama: scripted Completion delivering the drawn model output in tape-chosen UTF-8-aligned fragments with latency and failure points)",
 			"GPU discovery (simInventory)", "TCP/HTTP transport (requests enter at router.ServeHTTP; responses are recorded in memory)", "registry network (unreachable)"},
-		Rule: map[string]string{"*": "one evaluation = one simulated server lifetime: models created through the API, then 1-4 cases run concurrently; a case = (request shape, model output, runner failure point) issued 2-7 times over native stream / native non-stream (raw and through api.Client), /v1 stream and /v1 non-stream, each call with its own tape-drawn fragmentation, all results compared pairwise; non-trivial = at least one case completed with >= 2 calls that reached the runner; distinct = different hash of the whole (task, label, simulated time) decision sequence"},
+		Rule:       map[string]string{"*": "one evaluation = one simulated server lifetime: models created through the API, then 1-4 cases run concurrently; a case = (request shape, model output, runner failure point) issued 2-7 times over native stream / native non-stream (raw and through api.Client), /v1 stream and /v1 non-stream, each call with its own tape-drawn fragmentation, all results compared pairwise; non-trivial = at least one case completed with >= 2 calls that reached the runner; distinct = different hash of the whole (task, label, simulated time) decision sequence"},
 		NonTrivial: func(prop string, r *verifsim.Result) bool { return r.MaxRunnable >= 2 && r.Info["calls"] >= 2 },
 		Assumptions: []string{"instrumentation (yields at synchronisation points, mutex type swap, select/map-range determinisation) preserves single-threaded semantics",
 			"testing/synctest fake clock and quiescence detection",
